@@ -1225,6 +1225,12 @@ func (e *SpecEnv) quantifier(kind string, n *ast.CallExpr) Term {
 func trimSpecType(s string) string { return strings.TrimSpace(s) }
 
 func init() {
+	specBuiltins["held"] = func(e *SpecEnv, n *ast.CallExpr) (SV, types.Type) {
+		v, t := e.eval(n.Args[0])
+		tm, _ := e.scalar(v, t)
+		h := e.c.heapGet(e.st, "held$", SArr(SInt, SBool))
+		return Sc{Select(h, tm, SBool)}, tBool
+	}
 	specBuiltins["ceilu64"] = func(e *SpecEnv, n *ast.CallExpr) (SV, types.Type) {
 		v, t := e.eval(n.Args[0])
 		tm, _ := e.scalar(v, t)
